@@ -80,7 +80,7 @@ def classify(oc, data, cdc):
 
 def run(ctx):
     ctx.rule = ('all byte strings of length <= 2 (quick) / <= 3 (thorough) over 18 structural octets, and mutants (bit flip, insert, delete, '
-                'tag/length rewrite, truncation, duplication) of valid encodings; primitive contents over 14 significant octets and a sweep of all 256 first contents octets of BIT STRING/OID/REAL; REAL character forms over 31 texts (incl. nan, inf, underscores, blanks); BER, CER and DER decoders, one-shot and streaming; 17 guiding '
+                'tag/length rewrite, truncation, duplication) of valid encodings; primitive contents over 14 significant octets and a sweep of all 256 first contents octets of BIT STRING/OID/REAL; REAL character forms over 36 texts (incl. nan, inf, underscores, blanks); BER, CER and DER decoders, one-shot and streaming; 17 guiding '
                 'types and none; outcome must be a value object + remainder or a PyAsn1Error; reads bounded by 8*len+16; non-trivial = length >= 2')
     search_only = getattr(ctx, 'search_only', False)
     specs = [(sd, U.build_type(sd) if sd is not None else None, U.coq_ty(sd) if sd is not None else None) for sd in SPECS]
@@ -124,13 +124,15 @@ def run(ctx):
                     inputs.append(('str', bytes([tg, len(ct)]) + ct, sd))
     # REAL in character form (ISO 6093 NR1-3): text the number parser of the host language may accept beyond the standard's syntax
     TEXTS = [b'1', b'-1', b'+1', b'1.', b'1.5', b'.5', b'1e5', b'1E-5', b'1.e', b'e5', b'', b' 1', b'1 ', b'1\n', b'1_2', b'0x10', b'nan', b'NaN',
-             b'-nan', b'inf', b'-inf', b'Infinity', b'1e999', b'-1e999', b'1e-999', b'1,5', b'--1', b'1e', b'\xd9\xa1', b'\x00', b'1\x00']
+             b'-nan', b'inf', b'-inf', b'Infinity', b'1e999', b'-1e999', b'1e-999', b'1,5', b'--1', b'1e', b'\xd9\xa1', b'\x00', b'1\x00',
+             b'1' + b'0' * 400, b'-25' + b'0' * 350, b'9' * 330, b'1' + b'0' * 200 + b'.0', b'0.' + b'0' * 400 + b'1']
     for nr in (1, 2, 3, 0, 4, 0x3f):
         for t in TEXTS:
             if ctx.tier == 'quick' and ctx.rng.random() < 0.5:
                 continue
             ct = bytes([nr]) + t
-            inputs.append(('str', bytes([9, len(ct)]) + ct, ('real',)))
+            hdr = bytes([9, len(ct)]) if len(ct) < 128 else bytes([9, 0x82, len(ct) >> 8, len(ct) & 255])
+            inputs.append(('str', hdr + ct, ('real',)))
     exprs, meta = [], []
     for item in inputs:
         data = item[1]
